@@ -337,6 +337,7 @@ def cubicSpline (o : XOps α) (c : CCfg) (uw uh : List α) (udl udr : α) (inver
   let id ← getI cumh idx
   let lcw ← getI cumw idx
   let rcw ← getI cumw (idx + 1)
+  let ih ← getI heights idx
   -- NB: the real code gathers `rcw` from the *un-mutated* knots after the searchsorted fix.
   let bl := o.ofFloat (boxLog c.box)
   if inverse then
@@ -374,18 +375,19 @@ def cubicSpline (o : XOps α) (c : CCfg) (uw uh : List α) (udl udr : α) (inver
         (o.add (o.sub (o.add p q) b_) lcw, [])
       else (o.zero, [])
     let (out1, alts) :=
-      if o.lt (o.abs ia) (o.ofFloat c.thr) then
+      -- cubic.py (after the fix): |a| * width^3 < quadratic_threshold * height
+      if o.lt (o.mul (o.abs ia) (let bw := o.sub rcw lcw; o.mul (o.mul bw bw) bw)) (o.mul (o.ofFloat c.thr) ih) then
         let a := ib; let b := ic; let cc := o.sub id x'
         let al := o.div (o.mul o.two cc) (o.sub (o.neg b) (o.sqrt (o.sub (o.mul b b) (o.mul (o.mul (o.ofFloat 4.0) a) cc))))
         (o.add al lcw, [])
       else (out0, alts)
     let sh := o.sub out1 lcw
     let ld := o.neg (o.log (o.add (o.add (o.mul (o.mul three ia) (o.mul sh sh)) (o.mul (o.mul o.two ib) sh)) ic))
-    let sc := fun (t : α) => o.add (o.mul t (o.ofFloat (c.box.right - c.box.left))) (o.ofFloat c.box.left)
+    let sc := fun (t : α) => o.add (o.mul (o.clamp o.zero o.one t) (o.ofFloat (c.box.right - c.box.left))) (o.ofFloat c.box.left)
     return (sc out1, o.sub ld bl, alts.map sc)
   else
     let env := [x', lcw, ia, ib, ic, id]
-    let out := evalX o env cubicFwdE
+    let out := o.clamp o.zero o.one (evalX o env cubicFwdE)
     let ld := o.log (evalX o env cubicDerivE)
     return (o.add (o.mul out (o.ofFloat (c.box.top - c.box.bottom))) (o.ofFloat c.box.bottom), o.add ld bl, [])
 
